@@ -21,7 +21,7 @@ RULE = ("all 30 keys (enumerated): signature number, signature accidentals, note
 ASSUMPTIONS = [
     "oracle: own key table (signature number -> major/minor tonic), circle of fifths FCGDAEB and step patterns in "
     "vlib/ref/theory.py; own key note lists spelled from the step pattern",
-    "Key('') is outside the domain (empty string excluded, as for note names); the other functions are given '' too",
+    "the empty string is a candidate key like any other string, for Key() too (Key('') raised IndexError on the pinned tree; repaired)",
     "signature numbers are ints; candidate keys are strings",
     "the memo table is reached as keys._key_cache (cleared through getattr guards; if it is absent the cold and the warm "
     "query are simply two queries)",
@@ -238,8 +238,7 @@ def check_candidate(ctx, s):
         ctx.raises("third/invalid-key/keys-cached-in-another-order", (NoteFormatError,), intervals.third, "G", s)
     ctx.raises("relative_major/invalid-key", (NoteFormatError,), keys.relative_major, s)
     ctx.raises("relative_minor/invalid-key", (NoteFormatError,), keys.relative_minor, s)
-    if s != "":
-        ctx.raises("Key/invalid-key", (NoteFormatError,), keys.Key, s)
+    ctx.raises("Key/invalid-key", (NoteFormatError,), keys.Key, s)
     # diatonic steps in an unknown key: rejected, also when asked again and right after a valid question
     for i, fname in enumerate(STEP_FUNCTIONS):
         f = getattr(intervals, fname)
